@@ -3,6 +3,8 @@ from __future__ import annotations
 
 import itertools
 
+import numpy
+
 from hypothesis import strategies as st
 
 from .. import arr as A
@@ -105,6 +107,14 @@ def check_unit(case, rec):
                                      "order %r: %s, original order: %s" % (perm, kind, base_kind)))
                 break
             if kind == "ok" and not U.result_equal(po.result, o.result, 1e-5 if "float32" in dts else 1e-12):
+                # orderings of a floating sum may differ by the rounding of the operands at hand (cancellation: the
+                # difference is then large relative to the result): both are right when each lies within the error
+                # bound of the exact value and the same cells are missing
+                same_mask = (isinstance(po.result, numpy.ndarray) and isinstance(o.result, numpy.ndarray) and po.result.shape == o.result.shape
+                             and bool((numpy.ma.getmaskarray(po.result) == numpy.ma.getmaskarray(o.result)).all()))
+                if o.ref_kind == "cells" and same_mask and not fails and not U.judge(po):
+                    rec.label("orderings_equal_within_rounding_bound")
+                    continue
                 fails.append(Failure("%s|order_dependent:value" % o.sig, "order %r differs" % (perm,)))
                 break
     return fails
